@@ -242,7 +242,20 @@ def run(ctx):
                     moved = np.atleast_1d(np.asarray(fl.Centroid(r).defuzzify(F.build_set(fl, sh), sh["minimum"], sh["maximum"]), dtype=float))
                 except Exception:
                     moved = None
-                if moved is not None and moved.size == res["Centroid"].size:
+                on_breakpoint = False
+                if moved is not None:
+                    # the law holds in real arithmetic; in floating point the shifted breakpoints are rounded, so a sample point
+                    # sitting on (or within rounding of) a breakpoint may fall on the other side after the shift
+                    span = hi - lo
+                    for spc in (spec, sh):
+                        mids = midpoints(spc["minimum"], spc["maximum"], r)
+                        for a in spc["activated"]:
+                            for b in F.G.breakpoints(a["term"]):
+                                if any(abs(m - b) <= 1e-9 * max(span, abs(b)) for m in mids):
+                                    on_breakpoint = True
+                if on_breakpoint:
+                    ctx.hit("ambiguous:a sample point sits on a breakpoint of a term (translation law not judged)")
+                elif moved is not None and moved.size == res["Centroid"].size:
                     ctx.hit("law:centroid-translation")
                     ctx.evaluated()
                     scale = max(abs(lo), abs(hi), abs(lo + c), abs(hi + c), hi - lo)
